@@ -84,7 +84,7 @@ theorem dec_scalar (t : Ty) (o : FieldOpt) (v : Val) (efl dfl : Flags)
     (w : WireVal) (hp : payload efl.wantzero t o v = some w)
     (hlen : (encode (codecFor t o) v efl).length < 2 ^ 64) :
     ∃ v', IsPayload (codecFor t o).wire.num (encode (codecFor t o) v efl)
-      ∧ (∀ f cur, decode (f + 1) (codecFor t o) (encode (codecFor t o) v efl) cur dfl
+      ∧ (∀ f cur, decodeU (f + 1) (codecFor t o) (encode (codecFor t o) v efl) cur dfl
             = .ok (v', (encode (codecFor t o) v efl).length))
       ∧ Agr efl.wantzero t v' v := by
   have hz : dfl.zigzag = efl.zigzag := by rw [hze, hzd]
